@@ -7,6 +7,10 @@ HOOK_COMMITS = []
 
 # id -> (technique, level text, level note, design ref)
 CLAIMED = {
+ "C20": ("runtime monitor: two IEEE 802.15.4 hosts + an independent RFC 4944/6282 codec (802.15.4 MAC, IPHC, NHC, FRAG1/FRAGN, reassembler); frame-level and end-to-end comparison against independently constructed datagrams, fragment permutations, indep-built inbound frames",
+         "Exploration by runtime monitoring: five parts (emit: UDP/ICMPv6 over the address-class x port-class x hop-limit x payload grid, compared on the link with the datagram an independent codec constructs and with a Medium::Ip twin, and end to end at B incl. a raw socket; tcp: transfers over 6LoWPAN; perm: every permutation with one duplication of <= 4 fragments (sampled beyond) with a must-deliver rule for trackable orders; recv: frames built by the independent compressor incl. context-based and elided-checksum forms; b2b: datagrams queued back to back). ~1.4*10^5 cases quick, ~10x thorough.",
+         "Trusted: harness/src/indep/{ieee802154,lowpan,udp6,icmp6}.rs written from the RFCs, the bounded range-tracker model for 'trackable order'. Unicast A->B uses extended addresses (neighbor discovery cannot learn short ones). Known findings: fragmenter overwritten while busy, elided UDP checksum not recomputed, MLD report panic on 802.15.4 (known_findings.json).",
+         "DESIGN.md §4 C20"),
  "C16": ("runtime monitor: harness plays all Ethernet neighbors (ARP and NDISC); evidence list of valid announcements + independently computed next hop judge every emitted unicast frame; discovery spacing and exactly-once delivery of queued datagrams",
          "Exploration by runtime monitoring: 4 000 (quick) / 150 000 (thorough) seeded scenarios of 30..250 steps on an Ethernet interface with IPv4 and IPv6, 2..12 on-link neighbors (more than the 8 / 3 cache slots of the two build variants), two gateways and an expiring route: timely / late (1, 3, 61 s) / absent answers, unsolicited and gratuitous announcements with another hardware address, off-link senders, hop limit 64, broadcast/multicast hardware addresses, ARP for another target, confirming and foreign-address inbound traffic, address changes, time steps straddling 1 s and 60 s. Every emitted unicast IP frame must go to a hardware address announced for its independently computed next hop by a valid message (or confirming traffic) less than 60 s ago; discovery requests >= 1 s apart; every accepted datagram appears exactly once after its next hop answers.",
          "Trusted: the evidence model and next-hop computation in harness/src/mon/c16.rs, the independent ARP/NDISC/UDP builders in harness/src/indep/mini.rs. Confirming traffic may revive a mapping that was announced once. IEEE 802.15.4 neighbor handling is only exercised by the C20 scenarios.",
